@@ -400,6 +400,18 @@ class Prog:
         # parameters whose type the program text states: a default value (always a number in this generator) types its
         # parameter — `fn f(a = 4.0) { a(1.0) }` is rejected by the real checker (since the repair of C03-K15)
         binders = " ".join(f"({q} n)" for fn in self.fns for q in fn.params if q in getattr(fn, "defaults", {}))
+        # lambda parameters named `hf…` are the function-typed ones (Gen.escaping_closures): (float) -> float
+        hfs = []
+
+        def lam_params(n):
+            if isinstance(n, Node):
+                if n.kind == "lam":
+                    hfs.extend(q for q in n.a[0] if q.startswith("hf"))
+                for _, ch in children(n):
+                    lam_params(ch)
+        for fn in list(self.fns) + [self.dsp]:
+            lam_params(fn.body)
+        binders = (binders + " " + " ".join(f"({q} (fn (n) n))" for q in hfs)).strip()
         return f"(aprog {body} (binders {binders}) (rets {rets}))".replace("  ", " ")
 
     def src(self, kn=DEFAULT):
@@ -607,6 +619,8 @@ class Gen:
             opts = [("let", 6), ("letif", 2 if d > 0 else 0), ("lettup", 2 if self.p.get("tuples", True) else 0)]
             if self.p.get("lambdas", True) and d > 0 and ctx.get("lam_depth", 1 if ctx.get("in_lambda") else 0) < self.p.get("lam_depth", 1):
                 opts.append(("letlam", 2 if not ctx.get("in_lambda") else 5))
+            if self.p.get("escaping", False) and d > 0 and ctx.get("lam_depth", 0) + 2 <= self.p.get("lam_depth", 1):
+                opts.append(("letesc", 3))
             mut = [v for v in ctx["vars"] if v[1] == F and v[2]]
             if self.p.get("assign", True) and mut:
                 opts.append(("set", 2))
@@ -654,6 +668,9 @@ class Gen:
                     q = self.fresh("r")
                     stmts.append(("let", q, Node("recupd", v[0], f, idx, len(fs), self.simple(d, ctx))))
                     ctx["vars"].append((q, v[1], True))
+                continue
+            if k == "letesc":
+                self.escaping_closures(d, ctx, stmts, must_use)
                 continue
             if k == "letpcall":
                 f = r.pick(tsf)
@@ -764,6 +781,95 @@ class Gen:
             else:
                 tail = Node("set", st[1], st[2], tail)
         return tail
+
+    def escaping_closures(self, d, ctx, stmts, must_use):
+        """a closure created INSIDE a closure that leaves it: returned from the middle closure and applied after the middle
+        closure returned (`ret`), stored in a tuple next to a sibling and a number (`tup`), or handed to a higher-order closure
+        that the middle closure has itself captured (`hof`).  The inner closure reads — and under `closure_assign` assigns — a
+        variable `v` of the OUTERMOST function (two closure levels up); the outermost function writes `v` between the uses, so
+        every party must refer to the one cell of `v` (upvalue of an upvalue), also after the middle frame is gone."""
+        r = self.r
+        assign = self.p.get("closure_assign", False)
+        mut = [x for x in ctx["vars"] if x[1] == F and x[2]]
+        if not mut:
+            x0 = self.fresh()
+            stmts.append(("let", x0, self.simple(d, ctx)))
+            ctx["vars"].append((x0, F, True))
+            mut = [(x0, F, True)]
+        v = r.pick(mut)[0]
+        kind = r.pick(["ret", "ret", "tup", "hof"])
+        self.bump("s_escaping_" + kind)
+        p = self.fresh("p")
+        cap = ctx["vars"] if assign else [(n, t, False) for (n, t, _) in ctx["vars"]]
+        mctx = dict(ctx, vars=cap + [(p, F, False)], allow_state=False, self_type=None, in_lambda=True,
+                    lam_depth=ctx.get("lam_depth", 0) + 1)
+
+        def inner():
+            q = self.fresh("p")
+            ictx = dict(mctx, vars=mctx["vars"] + [(q, F, False)], lam_depth=mctx["lam_depth"] + 1)
+            body = self.add_to_tail(self.block(F, max(0, d - 2), ictx), Node("var", v))
+            if assign and r.chance(2, 3):
+                rhs = Node("bin", r.pick(["add", "sub", "mul"]), Node("var", v), r.pick([Node("var", q), Node("var", p), Node("lit", "1.0")]))
+                body = Node("set", v, rhs, body)
+            return self.fresh("f"), Node("lam", [q], body)
+
+        def write_v():
+            if self.p.get("assign", True) and r.chance(2, 3):
+                stmts.append(("set", v, self.simple(d, ctx)))
+
+        def use(fn):
+            y = self.fresh()
+            stmts.append(("let", y, Node("app", Node("var", fn), [self.simple(d - 1, ctx)])))
+            ctx["vars"].append((y, F, True))
+            must_use.append(y)
+
+        mk = self.fresh("f")
+        g, glam = inner()
+        if kind == "ret":
+            mbody = Node("let", g, glam, Node("var", g))
+            if assign and r.chance(1, 3):     # the middle closure writes the variable after the inner one captured it
+                mbody = Node("let", g, glam, Node("set", v, Node("bin", "add", Node("var", v), Node("var", p)), Node("var", g)))
+            stmts.append(("let", mk, Node("lam", [p], mbody)))
+            h = self.fresh("f")
+            stmts.append(("let", h, Node("app", Node("var", mk), [self.simple(d - 1, ctx)])))
+            write_v()
+            use(h)
+            if r.chance(1, 2):
+                write_v()
+                use(h)
+            if r.chance(1, 3):                # a second instance made by the same middle closure shares `v`, not `p`
+                h2 = self.fresh("f")
+                stmts.append(("let", h2, Node("app", Node("var", mk), [self.simple(d - 1, ctx)])))
+                use(h2)
+                use(h)
+                ctx["vars"].append((h2, ("fn", 1), False))
+            ctx["vars"].append((h, ("fn", 1), False))
+        elif kind == "tup":
+            g2, g2lam = inner()
+            mbody = Node("let", g, glam, Node("let", g2, g2lam, Node("tup", [Node("var", g), Node("var", g2), self.simple(max(0, d - 2), mctx)])))
+            stmts.append(("let", mk, Node("lam", [p], mbody)))
+            ha, hb, c = self.fresh("f"), self.fresh("f"), self.fresh()
+            stmts.append(("lett", [ha, hb, c], Node("app", Node("var", mk), [self.simple(d - 1, ctx)])))
+            ctx["vars"].append((c, F, False))
+            must_use.append(c)
+            use(ha)
+            write_v()
+            use(hb)
+            if r.chance(1, 2):
+                use(ha)
+            ctx["vars"] += [(ha, ("fn", 1), False), (hb, ("fn", 1), False)]
+        else:
+            hf, x = self.fresh("hf"), self.fresh("p")       # `hf…` names a parameter of type (float)->float (see Prog.asx)
+            ap = self.fresh("f")
+            apbody = Node("bin", r.pick(["add", "sub", "mul"]), Node("app", Node("var", hf), [Node("var", x)]),
+                          Node("app", Node("var", hf), [Node("bin", "add", Node("var", x), Node("lit", "1.0"))]))
+            stmts.append(("let", ap, Node("lam", [hf, x], apbody)))
+            mbody = Node("let", g, glam, Node("app", Node("var", ap), [Node("var", g), self.simple(max(0, d - 2), mctx)]))
+            stmts.append(("let", mk, Node("lam", [p], mbody)))
+            use(mk)
+            write_v()
+            use(mk)
+            ctx["vars"].append((mk, ("fn", 1), False))
 
     def ifexpr(self, t, d, ctx):
         actx = ctx if not self.p.get("avoid_f3", False) else dict(ctx, allow_state=False)
@@ -921,6 +1027,15 @@ PROFILES = {
     "tupassign_nr": dict(tuple_assign=True, rounding=False),
     "g6": dict(lam_depth=3, depth=4, closure_assign=True, avoid_g6=False),
     "rec": dict(recursion=True),
+    "rec": dict(avoid_f3=True, recursion=True),
+    # lambdas inside lambdas (a closure created by a closure captures variables of every enclosing level); `_assign`: and assigns them;
+    # `escaping`: inner closures that leave the middle one (returned, in a tuple, handed to a higher-order closure — Gen.escaping_closures)
+    "nested": dict(avoid_f3=True, lam_depth=3, depth=4, escaping=True),
+    "nested_assign": dict(avoid_f3=True, lam_depth=3, depth=4, closure_assign=True, escaping=True),
+    "nested_nr": dict(avoid_f3=True, lam_depth=3, depth=4, escaping=True, rounding=False),
+    "nested_assign_nr": dict(avoid_f3=True, lam_depth=3, depth=4, closure_assign=True, escaping=True, rounding=False),
+    "tupassign": dict(avoid_f3=True, tuple_assign=True),
+    "tupassign_nr": dict(avoid_f3=True, tuple_assign=True, rounding=False),
     "aggr": dict(gen="aggr"),
     "aggr_nofn": dict(gen="aggr", fn_fields=False),
 }
@@ -965,10 +1080,16 @@ def make_case(seed, idx, profile="core", times=24):
         else:
             g = Gen(r, dict(PROFILES[profile]))
         p = g.gen_prog()
-        if est_cost(p) <= MAX_COST and not (PROFILES[profile].get("avoid_g3", True) and stale_capture_risk(p)) \
-                and not (PROFILES[profile].get("avoid_g6", True) and nested_assign_risk(p)) \
-                and not (PROFILES[profile].get("avoid_g7", True) and bare_self_in_tuple(p)):
+        # (former findings G3 / G3b — a closure bound in an inner block turned the shared cell of a variable its function still
+        # assigns into a snapshot — and G6 — an upvalue of an upvalue was a copy — are repaired (UPV-1, UPV-2): their class
+        # predicates `stale_capture_risk` / `nested_assign_risk` no longer reject anything, members are only counted)
+        if est_cost(p) <= MAX_COST and not (PROFILES[profile].get("avoid_g7", True) and bare_self_in_tuple(p)):
             break
+    if PROFILES[profile].get("gen") != "aggr":
+        if nested_assign_risk(p):
+            g.bump("class_former_g6_nested_assign")
+        if stale_capture_risk(p):
+            g.bump("class_former_g3_stale_capture")
     nin = len(p.dsp.params)
     inputs = []
     for t in range(times):
@@ -1344,6 +1465,9 @@ def bare_self_in_tuple(p):
         if not isinstance(n, Node):
             return False
         if n.kind == "tup" and any(isinstance(x, Node) and x.kind == "self" for x in n.a[0]):
+            return True
+        # a record literal is the tuple of its fields: `let r = {x = 1.0, y = self}  r.y` gives 0 on the VM, 0x418 on WASM
+        if n.kind == "rec" and any(isinstance(e, Node) and e.kind == "self" for _, e in n.a[0]):
             return True
         return any(walk(ch) for _, ch in children(n))
     return any(walk(f.body) for f in list(p.fns) + [p.dsp])
